@@ -3,6 +3,7 @@ import collections
 
 from rules import grd as G
 from rules import fmt as F
+from rules import extra as X
 from rules.core import guarded, callee_name, last_seg, strip_generics
 
 INFO = {
@@ -196,4 +197,6 @@ def run(col, configs, tier):
         guarded(col, inventory, facts)
         guarded(col, rule_index_writers, facts)
         guarded(col, rule_panic_inventory, facts)
+        guarded(col, X.rule_bigfloat_bits, facts)
+        guarded(col, X.rule_exponent_bound, facts)
         guarded(col, F.rule_entry_validation, facts)
